@@ -1,8 +1,9 @@
 (** C01 — binary round trip: what the writer wrote is read back, consuming exactly those bytes.
     Statements only; proofs in proofs/CodecProofs.v (and proofs/ElabProofs.v for the Python-value layer). *)
-From Coq Require Import Lia String.
-From FA Require Import model.Base model.Varint model.Value model.Schema model.Utf8 model.Codec model.Validate
-                       model.Write model.Read proofs.VarintProofs proofs.CodecProofs.
+From Coq Require Import Lia String Reals SpecFloat.
+From Flocq Require Import Core BinarySingleNaN.
+From FA Require Import model.Base model.Varint model.Float model.Value model.Schema model.Utf8 model.Codec model.Validate
+                       model.Write model.Read proofs.VarintProofs proofs.CodecProofs proofs.FloatBits proofs.FloatProofs.
 
 (** zig-zag and base-128 varints: every 64-bit integer, anything may follow on the stream *)
 Theorem C01_long_roundtrip : forall n r, in_int64 n -> long_dec (long_enc n ++ r) = Ok (n, r).
@@ -136,3 +137,22 @@ Proof.
   split; [|split; assumption].
   apply (C01_normalisation 9 nopts [] nrec nv na nout He); [reflexivity|vm_compute; reflexivity|vm_compute; reflexivity|exact Hp].
 Qed.
+
+(** ** the 'float' clause of the normalisation ("'float' values rounded to IEEE single precision"), against the real-number
+    specification of IEEE-754 (Flocq): a finite number written under 'float' ([d2s]) and read back ([s2d]) is the double whose
+    value is the round-to-nearest-even binary32 rounding of the datum's value; the writer raises exactly when that rounding
+    overflows binary32.  [rval s m e] = (-1)^s m 2^e, [rne 24 128] = rounding onto binary32.
+    (Rests on the standard library's real-number axioms through Flocq; see Print Assumptions.) *)
+Theorem C01_float_rounded_to_single : forall bits s m e, fdecode 52 11 bits = S754_finite s m e ->
+  let r := rne 24 128 (rval s m e) in
+  if Rlt_bool (Rabs r) (bpow radix2 128)
+  then exists w y, d2s bits = Ok w /\ 0 <= w < 2 ^ 32 /\ fdecode 52 11 (s2d w) = y /\ SF2R radix2 y = r /\ is_finite_SF y = true
+  else d2s bits = Err.
+Proof. exact float_written_then_read. Qed.
+Print Assumptions C01_float_rounded_to_single.
+
+(** reading a binary32 pattern widens it exactly *)
+Theorem C01_float_widening_exact : forall bits s m e, fdecode 23 8 bits = S754_finite s m e ->
+  exists y, s2d bits = fencode 52 11 y /\ fdecode 52 11 (s2d bits) = y /\ SF2R radix2 y = rval s m e /\ is_finite_SF y = true.
+Proof. exact s2d_finite_exact. Qed.
+Print Assumptions C01_float_widening_exact.
